@@ -14,6 +14,7 @@ import Bpp.ApiThm
 import Bpp.LifecycleThm
 import Bpp.ScalarsThm
 import Bpp.BatchScalarsThm
+import Bpp.GenTableThm
 /-! # Property theorems
 
 Only the property statements live here, one block per C-id, each about the **executable** model functions of
@@ -771,5 +772,12 @@ theorem C15_prover_rounds (I : RangeInst F M) (hn : 0 < I.n) (v p : ℕ → ℕ)
     (Model.rangeProve I v p r α dL dR rr ss d η y z es e).wipP.Rs.length = es.length := by
   rw [rangeProve_bridge I hn]
   exact wipProve_lengths y I.t I.hb I.Gb dL dR rr ss d η e es 0 _ _ I.G I.H _
+
+/-- **C11 (finite table, kernel-checked).** The 2·64·32 + 6 + 1 = 4103 compressed generator encodings of the largest
+    parameter set — dumped from the real accessors into `Generated/GenTable.lean` and re-dumped and compared on every
+    run of the C11 check — are pairwise distinct, and none is the identity encoding. `decide +kernel` over the whole
+    table, lifted by `sortedAbove_nodup`. -/
+theorem C11_table : Generated.genTable.Nodup ∧ (0 ∉ Generated.genTable) ∧ Generated.genTable.length = 4103 :=
+  GenTableThm.table_nodup
 
 end Bpp
